@@ -256,47 +256,54 @@ def build_harness():
 
 
 def run_harness(cases, timeout=1800, shards=8):
-    """cases: list of dicts (already encoded). Returns list of decoded results (same order)."""
+    """cases: list of dicts (already encoded). Returns list of decoded results (same order).
+    The harness leaves (exit code 3) after a case that ran into its watchdog, because the stuck worker thread cannot be
+    killed; the remaining cases of the shard are then given to a fresh process."""
     if not cases:
         return []
     n = len(cases)
     shards = max(1, min(shards, n // 20 + 1))
     chunks = [cases[i::shards] for i in range(shards)]
-    procs = []
-    for ch in chunks:
-        inp = "\n".join(json.dumps(c) for c in ch) + "\n"
-        p = subprocess.Popen([VH], stdin=subprocess.PIPE, stdout=subprocess.PIPE, stderr=subprocess.DEVNULL, text=True)
-        procs.append((p, inp))
-    outs = []
     import threading
-    results = [None] * len(procs)
+    per = [None] * len(chunks)
 
-    def work(i, p, inp):
-        try:
-            o, _ = p.communicate(inp, timeout=timeout)
-        except subprocess.TimeoutExpired:
-            p.kill()
-            o = ""
-        results[i] = o
+    def work(i, ch):
+        rs = []
+        rest = list(ch)
+        deadline = time.time() + timeout
+        while rest:
+            inp = "\n".join(json.dumps(c) for c in rest) + "\n"
+            p = subprocess.Popen([VH], stdin=subprocess.PIPE, stdout=subprocess.PIPE, stderr=subprocess.DEVNULL, text=True)
+            try:
+                o, _ = p.communicate(inp, timeout=max(1.0, deadline - time.time()))
+            except subprocess.TimeoutExpired:
+                p.kill()
+                o = ""
+            lines = [l[6:] for l in (o or "").splitlines() if l.startswith("@@VH@@")]
+            got = 0
+            for l in lines[:len(rest)]:
+                try:
+                    rs.append(dec(json.loads(l)))
+                except Exception:
+                    rs.append({"harness_error": True})
+                got += 1
+            if got == len(rest):
+                break
+            if got == 0 or p.returncode != 3:
+                # the process died without a verdict for the next case (crash, kill, overall deadline): one error, go on
+                rs.append({"harness_error": True})
+                got += 1
+            rest = rest[got:]
+            if time.time() > deadline:
+                rs.extend({"harness_error": True} for _ in rest)
+                break
+        per[i] = rs
 
-    ths = [threading.Thread(target=work, args=(i, p, inp)) for i, (p, inp) in enumerate(procs)]
+    ths = [threading.Thread(target=work, args=(i, ch)) for i, ch in enumerate(chunks)]
     for t in ths:
         t.start()
     for t in ths:
         t.join()
-    per = []
-    for i, ch in enumerate(chunks):
-        lines = [l[6:] for l in (results[i] or "").splitlines() if l.startswith("@@VH@@")]
-        rs = []
-        for j in range(len(ch)):
-            if j < len(lines):
-                try:
-                    rs.append(dec(json.loads(lines[j])))
-                except Exception:
-                    rs.append({"harness_error": True})
-            else:
-                rs.append({"harness_error": True})
-        per.append(rs)
     out = [None] * n
     for s in range(shards):
         for j, r in enumerate(per[s]):
